@@ -35,14 +35,14 @@ Groups(k, e) ==
            {I("junk32", "", "", "x")}, {I("del", "c4", "", "")} }
          \cup (IF Rich THEN { {I("size", "big", "c1", "12")} } ELSE {})
     [] k = "netmap" ->
-         (IF e < 16 THEN { {I("osnap", "0", "k1", ""), I("osnap", "1", "k1", ""), I("osnap", "1", "k2", "")},
-                           {I("ocand", "k1", "", "1"), I("ocand", "k3", "", "2")} }
-                    ELSE { {I("snap", "0", "k1", "1"), I("snap", "1", "k1", "1"), I("snap", "1", "k2", "3")},
-                           {I("cand", "k1", "", "1"), I("cand", "k3", "", "2")} })
+         (IF e < 16 THEN { {I("ocand", "k1", "", "1"), I("ocand", "k3", "", "2")}, {I("ocand", "k2", "", "3")} }
+                    ELSE { {I("cand", "k1", "", "1"), I("cand", "k3", "", "2")}, {I("cand", "k2", "", "3")} })
          \cup { {I("cfg", "A", "", "va"), I("cfg", "AB", "", "vab"), I("cfg", "HomomorphicHashingDisabled", "", "1")} }
          \cup (IF e < 17 THEN { {I("innerring", "", "", "ir")} } ELSE {})
     [] k = "nns" ->
-         { {I("name", "a.neofs", "owner", "u1"), I("name", "a.neofs", "exp", "far"), I("name", "a.neofs", "admin", "u2"),
+         { {I("name", "b.neofs", "owner", "u1"), I("name", "b.neofs", "exp", "far"), I("name", "b.neofs", "admin", "nil"),
+            I("acctok", "u1", "b.neofs", "b.neofs")} \cup {I("rec16", "b.neofs", ToString(j), "t" \o ToString(j)) : j \in 0..15},
+           {I("name", "a.neofs", "owner", "u1"), I("name", "a.neofs", "exp", "far"), I("name", "a.neofs", "admin", "u2"),
             I("acctok", "u1", "a.neofs", "a.neofs"), I("rec16", "a.neofs", "0", "t0"), I("rec16", "a.neofs", "1", "t1")},
            {I("name", "site.org", "owner", "u3"), I("name", "site.org", "exp", "far"), I("name", "site.org", "admin", "nil"),
             I("acctok", "u3", "site.org", "site.org"), I("rec1", "site.org", "0", "1.2.3.4")} }
@@ -58,7 +58,7 @@ Groups(k, e) ==
 Base(k, e) ==
   CASE k = "balance" -> {I("supply", "", "", "15")}
     [] k = "container" -> {I("nnsroot", "", "", "container"), I("nmhash", "", "", "hn"), I("blhash", "", "", "hb"), I("idhash", "", "", "hi"), I("nnshash", "", "", "hx")}
-    [] k = "netmap" -> {I("snapcount", "", "", "3"), I("snapcur", "", "", "1"), I("epoch", "", "", "7"), I("block", "", "", "9")}
+    [] k = "netmap" -> {I("epoch", "", "", "27"), I("block", "", "", "9")}
                        \cup (IF e < 19 THEN {I("blhash", "", "", "hb"), I("cnhash", "", "", "hc")} ELSE {I("sub", "0", "hb", ""), I("sub", "1", "hc", "")})
     [] k = "nns" -> {I("price", "", "", "10"), I("root", "neofs", "", "0"), I("root", "org", "", "0"),
                      I("name", "neofs", "exp", "far"), I("name", "neofs", "admin", "nil"), I("name", "org", "exp", "far"), I("name", "org", "admin", "nil")}
@@ -83,15 +83,33 @@ NotaryStates(k, e) ==
   THEN { {}, {I("notary", "", "", "false")} }
        \* (the Audit contract never collected votes: its storage has no ballots, cf. the recorded dumps)
        \cup { {I("notary", "", "", "true")} \cup b : b \in (IF k \in PurgeKinds
-                                                            THEN { {}, {I("ballots", "", "", "empty")}, {I("ballots", "", "", "stale")},
-                                                                   {I("ballots", "", "", "fresh")}, {I("ballots", "", "", "mixed")} }
+                                                            THEN { {} } \cup { {I("ballots", "", "", b)} : b \in
+                                                                   {"empty", "stale", "fresh", "mixed", "many", "manyfresh", "edge20", "edge21"} }
                                                             ELSE { {} }) }
   ELSE { {} }
 
-\* the Alphabet migration out of the non-notary mode distributes GAS; it is driven by the traps only
+\* ---- stored parameters and sizes the migrations (and the readers afterwards) depend on: alternatives, one is chosen ----
+\* netmap: snapshot count (below, at and above the default of 10), ring position anywhere, EVERY slot filled
+Rings == {<<1, 0>>, <<3, 1>>, <<10, 0>>, <<10, 9>>, <<12, 0>>, <<12, 5>>, <<12, 11>>, <<15, 7>>}
+RingItems(cnt, cur, e) ==
+  {I("snapcount", "", "", ToString(cnt)), I("snapcur", "", "", ToString(cur))}
+  \cup (IF e < 16 THEN {I("osnap", ToString(i), "k1", "") : i \in 0..(cnt - 1)} \cup {I("osnap", ToString(i), "k2", "") : i \in {j \in 0..(cnt - 1) : j % 2 = 1}}
+                  ELSE {I("snap", ToString(i), "k1", "1") : i \in 0..(cnt - 1)} \cup {I("snap", ToString(i), "k2", "3") : i \in {j \in 0..(cnt - 1) : j % 2 = 1}})
+\* balance: number of accounts (none of the bulk / 48, every 6th a lock account with Until/Parent)
+BulkAccounts == {I("acc", "a" \o ToString(i), IF i % 6 = 0 THEN ToString(i) \o "~u2" ELSE "", ToString(100 + i)) : i \in 1..48}
+\* container: number of containers (bulk: 20 more, three owners)
+BulkContainers == UNION {{I("cnr", "c" \o ToString(i), "", "o" \o ToString((i % 3) + 1)),
+                          I("own", "o" \o ToString((i % 3) + 1), "c" \o ToString(i), "c" \o ToString(i))} : i \in 5..24}
+Params(k, e) ==
+  CASE k = "netmap"    -> {RingItems(r[1], r[2], e) : r \in Rings}
+                          \cup { {I("snapcount", "", "", "3"), I("snapcur", "", "", "2")} }     \* a ring that was never filled
+    [] k = "balance"   -> { {}, BulkAccounts }
+    [] k = "container" -> { {}, BulkContainers }
+    [] OTHER           -> { {} }
+
 Stores(k, e) ==
-  { LET s == Base(k, e) \cup UNION g \cup nf IN IF k = "nns" THEN NNSAccounting(s, e) ELSE s :
-      g \in SUBSET Groups(k, e), nf \in NotaryStates(k, e) }
+  { LET s == Base(k, e) \cup p \cup UNION g \cup nf IN IF k = "nns" THEN NNSAccounting(s, e) ELSE s :
+      p \in Params(k, e), g \in SUBSET Groups(k, e), nf \in NotaryStates(k, e) }
 
 \* mode "real": the tree's code with lowered version constants, populated through its API (no synthetic storage)
 \* (Netmap and NNS changed their layout after Prev: the tree's layout under the version number Prev never existed)
